@@ -35,5 +35,18 @@ while i < len(lines):
     if m: lines[i] = m.group(1) + str(len(order)) + m.group(2)
     out.append(lines[i]); i += 1
 assert len(done) == 3, done
+# seed statistics line (§8.3): replaces the line starting with SEEDSTATS
+import json, glob
+tot = own = oth = tie = 0; miss = []
+for mp in sorted(glob.glob(os.path.join(ROOT, "seeded", "*", "meta.json"))):
+    m = json.load(open(mp)); cr = m.get("check_results", {}); tot += 1
+    if cr.get(m["breaks_property"], {}).get("with_failing_input"): own += 1
+    elif any(r.get("with_failing_input") for r in cr.values()): oth += 1
+    elif any(r.get("caught") for r in cr.values()): tie += 1
+    else: miss.append(os.path.basename(os.path.dirname(mp)))
+line = ("SEEDSTATS: %d stored seeds — %d caught by the seeded property's own check with a failing-input replay, %d more with a failing input "
+        "by another property's check, %d reported only as a broken proof/correspondence (`no-failing-input-found`), %d not caught%s." %
+        (tot, own, oth, tie, len(miss), (" (" + ", ".join(miss) + ")") if miss else ""))
+out = [line if l.startswith("SEEDSTATS") else l for l in out]
 open(os.path.join(ROOT, "DESIGN.md"), "w").write("\n".join(out))
 print("fixed commits: %d, known classes: %d, status rows: %d" % (len(order), len(known), len(t_status) - 2))
